@@ -41,7 +41,7 @@ func hrrGroupFor(ch *wire.ClientHello) tls.CurveID {
 func TestC16(t *testing.T) {
 	r := mon.New("C16", "parrots whose spec carries a GREASE ECH extension (no real ECH config) x N connections x {plain server, HRR server, HRR server whose HelloRetryRequest carries a cookie}: parsed encrypted_client_hello of CH1 (and CH2) checked against the spec's candidate lists: type outer, (KDF,AEAD) in the candidates, 32-byte enc, payload length = candidate + 16-byte AEAD tag; CH2 extension bytes identical to CH1; config id / enc / payload fresh across connections. distinct = (parrot, kdf, aead, payload length, config id) tuples")
 	defer r.Finish(t)
-	conns := mon.Pick(128, 10000)
+	conns := mon.Pick(128, 40000)
 	targets := 0
 	for _, p := range AllParrots {
 		spec, err := tls.UTLSIdToSpec(p.ID)
